@@ -3,7 +3,7 @@
    FlatMap<std::string,std::string> normalise to the table Model.fm_step was written from.
    One lemma per group of members, so that the first one that fails names the member. *)
 From Common Require Import Prelude.
-From C10 Require Export Model FactsDefs FactsProofs FactsNorm.
+From C10 Require Export Model FactsDefs FactsDecls FactsProofs FactsNorm.
 From C10.gen Require Export Facts.
 Local Open Scope N_scope.
 
@@ -12,8 +12,6 @@ Definition fm_agree (ms : list fmeth) : Prop :=
 
 Ltac agree := intros m H; cbn in H; repeat (destruct H as [<-|H]; [split; vm_compute; reflexivity|]); contradiction.
 
-Lemma fm_members_lemma : ffacts_ok gen_ffacts = true.
-Proof. vm_compute. reflexivity. Qed.
 Lemma fm_lookup_lemma : fm_agree [MLookup; MLookupC].
 Proof. agree. Qed.
 Lemma fm_at_lemma : fm_agree [MAt; MAtC].
@@ -31,6 +29,12 @@ Proof. agree. Qed.
 Lemma fm_iterators_lemma :
   fm_agree [MBegin; MBeginC; MCBegin; MEnd; MEndC; MCEnd; MRBegin; MRBeginC; MCRBegin; MREnd; MREndC; MCREnd].
 Proof. agree. Qed.
+
+(* after the per-member lemmas, so that a changed body is named before the closed-world bookkeeping *)
+Lemma fm_members_lemma : ffacts_ok gen_ffacts = true.
+Proof. vm_compute. reflexivity. Qed.
+Lemma fm_declared_lemma : gen_fm_declared = fm_declared_expected.
+Proof. vm_compute. reflexivity. Qed.
 
 Lemma fm_table_lemma : forall m, norm_ftable gen_fm_ii m = fm_expected m /\ norm_ftable gen_fm_ss m = fm_expected m.
 Proof.
